@@ -239,6 +239,39 @@ pub fn c12(tier: &str, seed: u64) {
       case(true);
       stat("c12.many_requests_on_one_thread");
     }
+    // the output for a live tag does not change when OTHER tags are punctured - two and more punctures
+    // inside one subtree of the tag space ({0, 2, 6, 10}: puncture 0, puncture 2, evaluate 6 and 10)
+    if si % 4 == 1 {
+      let base = (g.next() as u8) & 0xf0;
+      let set: Vec<u8> = vec![base, base | 2, base | 6, base | 10, base | 1, base | 5];
+      if let Ok(mut srv) = Server::new(set.clone()) {
+        let vpk = srv.get_public_key();
+        let inp = gen_input(&mut g, 5);
+        let before: Vec<Option<[u8; 32]>> = set.iter().map(|&t| run_once(&srv, &inp, t, false).ok().map(|r| r.4)).collect();
+        let mut gone: Vec<u8> = Vec::new();
+        for &p in &[set[0], set[1], set[4]] {
+          let _ = srv.puncture(p);
+          gone.push(p);
+          for (k, &t) in set.iter().enumerate() {
+            if gone.contains(&t) {
+              continue;
+            }
+            let now = run_once(&srv, &inp, t, true).ok().map(|r| r.4);
+            if now != before[k] {
+              fail("answer_changed_after_puncture_of_other_tags", &[("tags", hex(&set)), ("punctured", hex(&gone)), ("md", t.to_string()), ("input", hex(&inp)), ("before", format!("{:?}", before[k].map(|v| hex(&v)))), ("after", format!("{:?}", now.map(|v| hex(&v))))]);
+            }
+            let (bp, _) = Client::blind(&inp);
+            if let Ok(ev) = srv.eval(&bp, t, true) {
+              if !Client::verify(&vpk, &bp, &ev, t) {
+                fail("honest_run_failed", &[("err", "honest_proof_rejected".into()), ("tags", hex(&set)), ("punctured", hex(&gone)), ("md", t.to_string())]);
+              }
+            }
+          }
+        }
+        case(true);
+        stat("c12.punctures_of_other_tags");
+      }
+    }
     // finalisation is a pure function of (input, tag, unblinded point): a long input finalised first,
     // then a short one, on ONE thread gives what a fresh thread gives
     if si % 8 == 2 {
@@ -457,6 +490,20 @@ pub fn c13(tier: &str, seed: u64) {
           );
         }
         case(true);
+      }
+      // completeness holds for EVERY decodable request point, the identity (32 zero bytes) and the
+      // base point included - the server answers them, so the client must accept the honest answer
+      if input_no % 4 == 1 {
+        for (what, pt) in [("the identity element", Point::from(&[0u8; 32][..])), ("the base point", Point::from(&BASE.compress().as_bytes()[..]))] {
+          if let Ok(evx) = server.eval(&pt, md, true) {
+            let ok = std::panic::catch_unwind(std::panic::AssertUnwindSafe(|| Client::verify(&pk, &pt, &evx, md)));
+            if ok.as_ref().ok() != Some(&true) {
+              fail("honest_proof_rejected", &[("request_point", what.to_string()), ("md", md.to_string()), ("mds", hex(&mds)), ("panicked", ok.is_err().to_string())]);
+            }
+            case(true);
+            stat("c13.special_request_points");
+          }
+        }
       }
       // ONE blinded point evaluated verifiably under two tags, and the identical request repeated:
       // every proof has its own nonce commitment
